@@ -116,9 +116,37 @@ def _total(method):
             else:
                 self.events.append(dict(self._base("nonfinite"), of=method.__name__, xf=repr(a[:1])))
         except Exception as ex:      # noqa: BLE001
+            if kw.get("arg", "array") != "array":
+                # the argument was handed over in another representation than the documented float64 array: a tree that rejects it is noted
+                NOTES.append("%s(argument as %s) raised %s" % (method.__name__, kw.get("arg"), type(ex).__name__))
+                return None
             self.events.append(dict(self._base("raises"), of=method.__name__, exc=type(ex).__name__, xf=repr(a[:1])))
         return None
     return wrapper
+
+
+NOTES = []       # representations the tree under test does not accept (the documented type is a float64 array): noted, never judged
+
+
+def make_evolvent(la, ua, n, m, lo, up):
+    """Evolvent built from bounds in the given representation; if that representation is rejected, from float64 arrays"""
+    try:
+        return Evolvent(la, ua, n, m)
+    except Exception as ex:      # noqa: BLE001
+        if isinstance(la, np.ndarray) and la.dtype == np.double:
+            raise
+        NOTES.append("Evolvent(bounds as %s) raised %s: float64 arrays used instead" % (type(la).__name__, type(ex).__name__))
+        return Evolvent(np.array(lo, dtype=np.double), np.array(up, dtype=np.double), n, m)
+
+
+def set_bounds(ev, la, ua, lo, up):
+    try:
+        ev.SetBounds(la, ua)
+    except Exception as ex:      # noqa: BLE001
+        if isinstance(la, np.ndarray) and la.dtype == np.double:
+            raise
+        NOTES.append("SetBounds(bounds as %s) raised %s: float64 arrays used instead" % (type(la).__name__, type(ex).__name__))
+        ev.SetBounds(np.array(lo, dtype=np.double), np.array(up, dtype=np.double))
 
 
 class EvoRecorder:
@@ -128,13 +156,13 @@ class EvoRecorder:
         self.n, self.m = n, m
         if rebound_from is not None:
             lo0, up0 = typed_bounds(rebound_from[0], rebound_from[1], ["ints", "f64", "int64", "list"][next(_BKIND) % 4])
-            self.ev = Evolvent(lo0, up0, n, m)      # (integral first bounds typed as ints: the bounds set afterwards are what counts)
+            self.ev = make_evolvent(lo0, up0, n, m, rebound_from[0], rebound_from[1])      # (integral first bounds typed as ints: the bounds set afterwards are what counts)
             la, ua, scribble = scribbled(lo, up)
-            self.ev.SetBounds(la, ua)
+            set_bounds(self.ev, la, ua, lo, up)
             scribble()
         else:
             la, ua, scribble = scribbled(lo, up)
-            self.ev = Evolvent(la, ua, n, m)
+            self.ev = make_evolvent(la, ua, n, m, lo, up)
             scribble()
         self.lo, self.up = list(lo), list(up)
         self.events = events
@@ -145,7 +173,7 @@ class EvoRecorder:
 
     def set_bounds(self, lo, up):
         la, ua, scribble = scribbled(lo, up)
-        self.ev.SetBounds(la, ua)
+        set_bounds(self.ev, la, ua, lo, up)
         scribble()
         self.lo, self.up = list(lo), list(up)
 
@@ -217,7 +245,8 @@ class EvoRecorder:
 
 
 def nest_event(n, m, lo, up, x, events, idgen):
-    yc = [float(t) for t in Evolvent(lo, up, n, m).GetImage(x)]
-    yf = [float(t) for t in Evolvent(lo, up, n, m + 1).GetImage(x)]
+    la, ua = np.array(lo, dtype=np.double), np.array(up, dtype=np.double)
+    yc = [float(t) for t in Evolvent(la, ua, n, m).GetImage(x)]
+    yf = [float(t) for t in Evolvent(la, ua, n, m + 1).GetImage(x)]
     events.append({"id": next(idgen), "op": "nest", "n": n, "m": m, "lo": qv(lo), "up": qv(up),
                    "yc": qv(yc), "yf": qv(yf), "xf": repr(x)})
